@@ -4,8 +4,8 @@
 (*                                                                         *)
 (* (1) Validation of BitsFn.tla at width 8 against plain integer           *)
 (*     arithmetic (rows of the unit "validate8": one row per first         *)
-(*     operand -- thorough tier: every even value and 1, 127, 129, 255;    *)
-(*     quick tier: 6 boundary values; the second operand always ranges     *)
+(*     operand -- thorough tier: every 4th value and 1, 127, 129, 254,     *)
+(*     255; quick tier: 6 boundary values; the second operand always runs  *)
 (*     over all of 0..255).  The operators are width-generic: this is the  *)
 (*     evidence for their 32- and 64-bit instances.  In addition algebraic *)
 (*     sanity of every enumerated 32/64-bit case (q*y + r = hi:lo, r < y,  *)
@@ -44,7 +44,7 @@ S(w) == {ToLimbs(v) : v \in SmallBits(w)} \cup RandOf(w)
 LoGrid(w) == IF Quick \/ w = 64 THEN {ToLimbs(v) : v \in TinyBits(w)} \cup RandOf(w) ELSE S(w)
 MulGrid(w) == IF w = 64 THEN S(w) ELSE G(w)
 DivGrid(w) == IF Quick \/ w = 64 THEN S(w) ELSE G(w)
-ValidateRows == IF Quick THEN {0, 1, 127, 128, 254, 255} ELSE {k \in 0..255 : k % 2 = 0} \cup {1, 127, 129, 255}
+ValidateRows == IF Quick THEN {0, 1, 127, 128, 254, 255} ELSE {k \in 0..255 : k % 4 = 0} \cup {1, 127, 129, 254, 255}
 ValidateLos(a, b) == IF Quick THEN {(a * 7 + b) % 256} ELSE {255, (a * 7 + b) % 256}
 Rot == {0, 1, 7, 8, 31, 32, 33, 63, 64, 65, -1, -8, -33, 100}
 
